@@ -10,7 +10,9 @@ EVIDENCE = dict(
          "slots, note cells over all NOTECMD members, project fields over their widths, Unicode names straddling byte 32, "
          "type-specific payloads, nested MetaModules, samplers). Each is saved, loaded with the real reader, both objects "
          "are projected and TLC (Trace_RVFormat) checks: loaded = Norm(original) field by field; loaded = Read(bytes) with "
-         "the spec's own decoder; and Container.clone() the same way. distinct_nontrivial = projects with at least two "
+         "the spec's own decoder; and Container.clone() the same way. Every sixth project continues as a history on the same "
+         "objects (save, edit in place through the C06 leaf catalogue, save again, load, edit the loaded project, save), each "
+         "save judged as its own round trip. distinct_nontrivial = projects with at least two "
          "modules or a pattern, distinct by content hash.",
     explanation="reference evaluation: RVFormat!Norm / Read are evaluated by TLC on every generated project; states/"
                 "transitions are those of the batch trace validation (one initial state per trace)")
@@ -22,6 +24,7 @@ def run(ctx):
     path, spec = specdata.write(ctx)
     fmt.mc_format(ctx, path, spec, 6 if q else 40, maxdepth=1 if q else 2)
     traces = []
+    chain_kinds = {}
     n = 120 if q else 2500
     for i in range(n):
         depth = rnd.choice([0, 1, 1, 2])
@@ -31,6 +34,11 @@ def run(ctx):
         ctx.count_case(json.dumps(ev["orig"], sort_keys=True), nontrivial=len(ev["orig"]["modules"]) > 1 or len(ev["orig"]["patterns"]) > 0)
         if i % 10 == 0:
             traces.append({"id": "p%d.clone" % i, "events": [fmt.container_clone_event(p, spec)]})
+        if i % 6 == 1:          # history: save, edit in place, save, load, edit the loaded project, save
+            evs, kinds = fmt.chain_events(p, spec, rnd)
+            traces.append({"id": "p%d.chain" % i, "events": evs[1:]})
+            for k in kinds:
+                chain_kinds[k] = chain_kinds.get(k, 0) + 1
     cans = []
     for k, tr in enumerate(traces[:3]):
         c = {"id": "canary%d" % k, "events": [fmt.corrupt_first_int(tr["events"][0])]}
@@ -39,5 +47,6 @@ def run(ctx):
     ev0 = traces[1]["events"][0]
     ctx.sample({"op": "roundtrip", "orig_proj": ev0["orig"]["proj"], "modules": [m.get("mtype", "none") for m in ev0["orig"]["modules"]],
                 "n_chunks": len(ev0["chunks"]), "outcome": ev0["outcome"]})
+    ctx.cov["chain_edit_kinds"] = dict(sorted(chain_kinds.items()))
     fmt.validate(ctx, traces, "c01_roundtrip", cans, path)
     ctx.exhaustive = False
